@@ -9,7 +9,10 @@ from .. import core, ctx as _ctx, build, driver
 PROP = "C14"
 POOL = ["user@почта.рф".encode(), b"user@mail.ru", "иван@иванов.рф".encode(), b"u@[1.2.3.4]", b"u@[IPv6:2001:db8::1]", "x@在线.在线".encode(),
         b"a..b@c.com", b"u@a.zzzz", "u@☕.de".encode(), b"u@example.com", b"special@localhost", b'"a b"@iana.org', b"abcdefg@abcdefg.test",
-        b"u@a.abarth", b"not-an-address", "ü@bücher.example.org".encode()]
+        b"u@a.abarth", b"not-an-address", "ü@bücher.example.org".encode(),
+        # literals of every kind (tagged / untagged, with dotted-quad tail, invalid tail): each takes its own path through the IP parsers
+        b"u@[IPv6:::ffff:1.2.3.4]", b"u@[IPv6:1:2:3:4:5:6:9.8.7.6]", b"u@[IPv6:::ffff:1.2.3.400]", b"u@[2001:db8::1]", b"u@[10.0.0.256]",
+        b"u@x.example.com", b'"q"@[IPv6:1::2]']
 
 
 # addresses that fail inside the IDN conversion with different codes (disallowed, Punycode input / overflow, encoding, joiner without
